@@ -252,9 +252,17 @@ void CaptureModulePayload::setData(const std::string_view deviceDescription,
     payloadData.resize(newSize);
 }
 
-bool CaptureModulePayload::isValidPayload([[maybe_unused]] const uint8_t* data, const size_t size)
+bool CaptureModulePayload::isValidPayload(const uint8_t* data, const size_t size)
 {
-    return (size >= sizeof(Header));
+    // The header is followed by four length-prefixed strings and length-prefixed vendor data
+    size_t offset = sizeof(Header);
+    for (int i = 0; i < 5; ++i)
+    {
+        if (size < offset + sizeof(uint16_t))
+            return false;
+        offset += sizeof(uint16_t) + ((data[offset] << 8) | data[offset + 1]);
+    }
+    return size >= offset;
 }
 
 const CaptureModulePayload::Header* CaptureModulePayload::getHeader() const
